@@ -159,6 +159,8 @@ func numOf(x Value) float64 {
 
 type rowsType []interface{}
 
+type ptrKey struct{ N int }
+
 type selfPtr *selfPtr
 type hiddenMap struct {
 	Name string
@@ -392,6 +394,24 @@ func toGo(v Value) interface{} {
 			out := map[float64]string{math.NaN(): "n", math.NaN(): "m"}
 			for i, k := range v.Ks {
 				out[float64(k.I)] = textOf(v.Vs[i].S, nil, false)
+			}
+			return out
+		case "mptr": // map[*ptrKey]string: pointer keys (pointees may print alike)
+			out := map[*ptrKey]string{}
+			for i, k := range v.Ks {
+				out[&ptrKey{N: k.I}] = textOf(v.Vs[i].S, nil, false)
+			}
+			return out
+		case "mpint": // map[*int]string, the keys point into one array (laid out the other way round under "rev")
+			arr := make([]int, len(v.Ks))
+			out := map[*int]string{}
+			for i, k := range v.Ks {
+				j := i
+				if reverseInsertion {
+					j = len(v.Ks) - 1 - i
+				}
+				arr[j] = k.I
+				out[&arr[j]] = textOf(v.Vs[i].S, nil, false)
 			}
 			return out
 		case "mss":
